@@ -61,6 +61,10 @@ type slotStore struct {
 	Field int // -1: the whole element; otherwise the struct field written in place (&arr[k].f = v)
 	Val   ssa.Value
 	Store *ssa.Store
+	// In: the store is made by an in-package helper through the parameter the array is passed for, at this call
+	// (one level; the helper has this single call site). Its value and index are read with the helper's
+	// parameters bound to the call's arguments; its place in the caller's control flow is the call.
+	In *ssa.Call
 }
 
 type slotArr struct {
@@ -79,6 +83,8 @@ type slotModel struct {
 	// skipLanding: per loop header, the blocks control continues at when an iteration was given up (the branch a
 	// cleared flag takes after the loop) — recorded by loopCompletesBefore for the "one cell only" check
 	skipLanding map[*ssa.BasicBlock][]*ssa.BasicBlock
+	// helpers: functions whose stores were absorbed into a caller's array (they belong to the caller's site)
+	helpers map[*ssa.Function]bool
 }
 
 func newSlotModel() *slotModel { return &slotModel{arrs: map[*ssa.Alloc]*slotArr{}} }
@@ -187,6 +193,9 @@ func (m *slotModel) arrOf(v ssa.Value) *slotArr {
 						for i, arg := range u.Call.Args {
 							if arg == agg && (i >= len(callee.Params) || !readOnlyUses(callee.Params[i], 0)) {
 								ro = false
+								if i < len(callee.Params) && m.absorbHelperStores(sa, u, callee.Params[i]) {
+									ro = true
+								}
 							}
 						}
 					}
@@ -564,12 +573,20 @@ func (e *evaluator) slotFieldVals(sa *slotArr, k, f int) []slotVal {
 		if s.Field != f {
 			continue
 		}
+		// a store made inside a helper is read with the helper's parameters bound to the call's arguments
+		hs := h
+		if s.In != nil {
+			if in := h.enter(s.In); in != nil {
+				in.env, in.depth = h.env, h.depth
+				hs = in
+			}
+		}
 		if s.K == k {
-			out = append(out, slotVal{val: s.Val, home: h, store: s})
+			out = append(out, slotVal{val: s.Val, home: hs, store: s})
 		} else if s.K < 0 {
 			if cur, bound := h.env[s.Idx]; bound {
 				if int(cur) == k {
-					out = append(out, slotVal{val: s.Val, home: h, store: s})
+					out = append(out, slotVal{val: s.Val, home: hs, store: s})
 				}
 				continue
 			}
@@ -582,7 +599,7 @@ func (e *evaluator) slotFieldVals(sa *slotArr, k, f int) []slotVal {
 				env[kk] = vv
 			}
 			bindIndex(env, s.Idx, int64(k))
-			out = append(out, slotVal{val: s.Val, home: h.withEnv(env), store: s, unknownRange: !known})
+			out = append(out, slotVal{val: s.Val, home: hs.withEnv(env), store: s, unknownRange: !known})
 		}
 	}
 	return out
@@ -1023,6 +1040,11 @@ func (m *slotModel) indexRange0(idx ssa.Value) (int64, int64, bool) {
 	} else if call, ok := cmp.Y.(*ssa.Call); ok && ssau.Builtin(call) == "len" {
 		sa := m.arrOf(call.Call.Args[0])
 		if sa == nil {
+			if q, ok := call.Call.Args[0].(*ssa.Parameter); ok {
+				sa = m.arrOfParam(q)
+			}
+		}
+		if sa == nil {
 			return 0, 0, false
 		}
 		bound = int64(sa.N)
@@ -1104,6 +1126,16 @@ func (m *slotModel) overwrittenBefore(sa *slotArr, st *slotStore, ld *ssa.UnOp) 
 		}
 		lo, hi, ok := m.indexRange(v.Idx)
 		if !ok || int64(st.K) < lo || int64(st.K) >= hi {
+			continue
+		}
+		if v.In != nil {
+			// the overwriting loop runs inside a helper called at v.In
+			if st.In == nil && st.Store.Parent() == v.In.Parent() && st.Store.Block().Dominates(v.In.Block()) &&
+				(st.Store.Block() != v.In.Block() || ssau.Before(st.Store, v.In)) {
+				if ok, _ := m.helperFillsBefore(v, ld.Block()); ok {
+					return true
+				}
+			}
 			continue
 		}
 		var loop *ssau.Loop
@@ -1528,4 +1560,216 @@ func exitLanding(from, to *ssa.BasicBlock) *ssa.BasicBlock {
 		}
 	}
 	return b
+}
+
+// ---------------------------------------------------------------------------
+// one level of helper inlining for arrays that a helper fills through a parameter
+
+// singleSite: the one static call of fn inside its package (nil when there are none or several).
+var siteCache = map[*ssa.Function]*ssa.Call{}
+
+func singleSite(fn *ssa.Function) *ssa.Call {
+	if fn == nil || fn.Pkg == nil {
+		return nil
+	}
+	if c, ok := siteCache[fn]; ok {
+		return c
+	}
+	c := singleSite0(fn)
+	siteCache[fn] = c
+	return c
+}
+
+func singleSite0(fn *ssa.Function) *ssa.Call {
+	var site *ssa.Call
+	n := 0
+	for _, f := range allFuncs(fn.Pkg) {
+		ssau.AllInstrs(f, func(in ssa.Instruction) {
+			if ci, ok := in.(ssa.CallInstruction); ok && ci.Common().StaticCallee() == fn {
+				n++
+				site, _ = in.(*ssa.Call)
+			}
+		})
+	}
+	if n != 1 {
+		return nil
+	}
+	return site
+}
+
+// arrOfParam: the caller's slot array a helper parameter stands for (single call site only).
+func (m *slotModel) arrOfParam(q *ssa.Parameter) *slotArr {
+	fn := q.Parent()
+	call := singleSite(fn)
+	if call == nil {
+		return nil
+	}
+	for i, p := range fn.Params {
+		if p == q && i < len(call.Call.Args) {
+			return m.arrOf(call.Call.Args[i])
+		}
+	}
+	return nil
+}
+
+// absorbHelperStores: the array is passed to an in-package helper that writes it through parameter q. When the
+// helper has this single call site and uses q only for indexed element stores / loads / len, its stores become
+// stores of the caller's array (slotStore.In = the call).
+func (m *slotModel) absorbHelperStores(sa *slotArr, call *ssa.Call, q *ssa.Parameter) bool {
+	fn := q.Parent()
+	if fn == nil || singleSite(fn) != call || fn == call.Parent() {
+		return false
+	}
+	var add []*slotStore
+	for _, r := range ssau.Refs(q) {
+		switch u := r.(type) {
+		case *ssa.IndexAddr:
+			if u.X != ssa.Value(q) {
+				return false
+			}
+			k := -1
+			if n, ok := constNum(u.Index); ok {
+				k = int(n)
+			}
+			for _, rr := range ssau.Refs(u) {
+				switch w := rr.(type) {
+				case *ssa.Store:
+					if w.Addr != ssa.Value(u) {
+						return false
+					}
+					add = append(add, &slotStore{Idx: u.Index, K: k, Field: -1, Val: w.Val, Store: w, In: call})
+				case *ssa.UnOp, *ssa.DebugRef:
+				case *ssa.FieldAddr:
+					for _, r3 := range ssau.Refs(w) {
+						switch x := r3.(type) {
+						case *ssa.Store:
+							if x.Addr != ssa.Value(w) {
+								return false
+							}
+							add = append(add, &slotStore{Idx: u.Index, K: k, Field: w.Field, Val: x.Val, Store: x, In: call})
+						case *ssa.UnOp, *ssa.DebugRef:
+						default:
+							return false
+						}
+					}
+				default:
+					return false
+				}
+			}
+		case *ssa.Call:
+			if b := ssau.Builtin(u); b != "len" && b != "cap" {
+				return false
+			}
+		case *ssa.DebugRef, *ssa.Range:
+		default:
+			return false
+		}
+	}
+	sa.Stores = append(sa.Stores, add...)
+	if m.helpers == nil {
+		m.helpers = map[*ssa.Function]bool{}
+	}
+	m.helpers[fn] = true
+	return true
+}
+
+// helperFillsBefore: the variable-index store v lives in a helper (v.In); control only reaches `target` (a block of
+// the caller, after the call) when the helper's loop around v ran to completion:
+//
+//   - in the helper every return yields a boolean constant, and the returns with one of the two values are only
+//     reachable after the loop visited every index (loopCompletesBefore on the helper's own CFG), and
+//   - in the caller the call's block ends in a test of the result, the branch for the other value cannot reach
+//     target without passing the call again, and the call dominates target.
+//
+// Returns also the block the caller continues at when the helper gave up (for the "one cell only" check).
+func (m *slotModel) helperFillsBefore(v *slotStore, target *ssa.BasicBlock) (bool, *ssa.BasicBlock) {
+	call := v.In
+	h := v.Store.Parent()
+	if call == nil || h == nil {
+		return false, nil
+	}
+	var loop *ssau.Loop
+	for _, l := range ssau.Loops(h) {
+		if l.Blocks[v.Store.Block()] && (loop == nil || len(l.Blocks) < len(loop.Blocks)) {
+			loop = l
+		}
+	}
+	if loop == nil {
+		return false, nil
+	}
+	type retInfo struct {
+		b   *ssa.BasicBlock
+		val bool
+	}
+	var rets []retInfo
+	for _, b := range h.Blocks {
+		if b == h.Recover {
+			continue
+		}
+		ret, ok := b.Instrs[len(b.Instrs)-1].(*ssa.Return)
+		if !ok {
+			continue
+		}
+		if len(ret.Results) != 1 {
+			return false, nil
+		}
+		c, ok := ret.Results[0].(*ssa.Const)
+		if !ok || c.Value == nil || (c.Value.String() != "true" && c.Value.String() != "false") {
+			return false, nil
+		}
+		rets = append(rets, retInfo{b, c.Value.String() == "true"})
+	}
+	if len(rets) == 0 {
+		return false, nil
+	}
+	var done *bool
+	for _, cand := range []bool{true, false} {
+		ok, n := true, 0
+		for _, r := range rets {
+			if r.val != cand {
+				continue
+			}
+			n++
+			if loop.Blocks[r.b] || !loop.Header.Dominates(r.b) || !m.loopCompletesBefore(loop, v.Store.Block(), r.b) {
+				ok = false
+			}
+		}
+		if ok && n > 0 {
+			c := cand
+			done = &c
+			break
+		}
+	}
+	if done == nil {
+		return false, nil
+	}
+	// caller side
+	cb := call.Block()
+	iff, ok := cb.Instrs[len(cb.Instrs)-1].(*ssa.If)
+	if !ok {
+		return false, nil
+	}
+	cond, neg := iff.Cond, false
+	if u, ok := cond.(*ssa.UnOp); ok && u.Op == token.NOT {
+		cond, neg = u.X, true
+	}
+	if cond != ssa.Value(call) {
+		return false, nil
+	}
+	// successor taken when the helper completed
+	val := *done
+	if neg {
+		val = !val
+	}
+	good, gaveUp := cb.Succs[0], cb.Succs[1]
+	if !val {
+		good, gaveUp = gaveUp, good
+	}
+	if !cb.Dominates(target) || target == cb || gaveUp == target || reachesVia(gaveUp, target, cb) {
+		return false, nil
+	}
+	if good != target && !reachesVia(good, target, cb) {
+		return false, nil
+	}
+	return true, gaveUp
 }
